@@ -123,7 +123,10 @@ class DecodeState:
             str_encoding = get_string_encoding(base_data_type, base_type_encoding,
                                                is_highlow_byte_order)
             if str_encoding is not None:
-                internal_value = raw_value.decode(str_encoding, errors=text_errors)
+                try:
+                    internal_value = raw_value.decode(str_encoding, errors=text_errors)
+                except UnicodeDecodeError as e:
+                    raise DecodeError(f"Cannot decode string using encoding '{str_encoding}': {e}")
             else:
                 internal_value = "ERROR"
 
